@@ -374,11 +374,16 @@ func runC04() {
 		if n%50 == 7 {
 			c04Heartbeat(genShape(r), r.Fork())
 		}
+		// (the families that wait for wall-clock heart-beats are thinned out in the thorough tier)
+		thin := 1
+		if run.Thorough() {
+			thin = 4
+		}
 		if n%3 == 1 {
-			c04PessProgram(n%30 == 1, r.Fork())
+			c04PessProgram(n%(30*thin) == 1, r.Fork())
 			rec.Count("c04:family:pess-program")
 		}
-		if n%10 == 3 {
+		if n%(10*thin) == 3 {
 			ls := genShape(r)
 			for len(ls.keys) < 2 {
 				ls = genShape(r)
